@@ -1039,6 +1039,25 @@ pub(crate) mod alloc {
         Ok((l1_eval, pi_eval))
     }
 
+    /// Verification hook: the verifier's fused `L_1` / public-input
+    /// evaluation, exposed to `crate::verif`.
+    #[cfg(feature = "verif")]
+    pub(crate) fn verif_lagrange_and_barycentric_evaluations(
+        public_input_roots: &[BlsScalar],
+        evaluations: &[BlsScalar],
+        point: &BlsScalar,
+        z_h_eval: &BlsScalar,
+        domain: &EvaluationDomain,
+    ) -> Result<(BlsScalar, BlsScalar), Error> {
+        compute_lagrange_and_barycentric_evaluations(
+            public_input_roots,
+            evaluations,
+            point,
+            z_h_eval,
+            domain,
+        )
+    }
+
     pub(crate) fn compute_barycentric_eval(
         evaluations: &[BlsScalar],
         point: &BlsScalar,
